@@ -6,6 +6,7 @@ For each seed: scratch worktree of /repo HEAD under /tmp/wt/port-<seed>, `git ap
 without conflicts the patch is regenerated from the worktree, the demonstration is run with and without the
 change and the test suite with it; only then is seeded/<seed>/patch.diff replaced.  With conflicts the
 worktree is left in place for a manual resolution (then run with --finish <seed>)."""
+import json
 import os
 import re
 import subprocess
@@ -64,6 +65,10 @@ def main():
         seeds = [s for s in seeds if s in args]
     for seed in seeds:
         if applies(seed) and not (args and args[0] != "--all"):
+            continue
+        meta = os.path.join(HERE, "seeded", seed, "meta.json")
+        if os.path.exists(meta) and json.load(open(meta)).get("obsolete") and seed not in args:
+            print(f"  {seed}: obsolete (not ported)")
             continue
         wt = f"/tmp/wt/port-{seed}"
         sh(f"git -C {REPO} worktree remove --force {wt}")
